@@ -369,9 +369,12 @@ def run(ctx, res):
     window_rules(prog, res, f)
     window_init(prog, res, f)
     n = pair_reader(prog, res, f)
+    from .. import runtimerules as RR
+    RR.rule_consume(prog, res, "process_data", "iterate")
     if n < 1:
         raise AnalysisBroken("process_data no longer maps its reader")
     res.require_min("O-INIT-RMW", 1)
     res.require_min("T-EXH", 5)
     res.require_min("R-WINDOW", 10)
     res.require_min("PAIR", 1)
+    res.require_min("R-CONSUME", 1)
